@@ -131,6 +131,10 @@ pub struct SimB {
     last_ok: Option<(String, u64)>,
     /// The server's object set at that version.
     last_ok_objects: BTreeMap<String, Bytes>,
+    /// The server view of the last successful update that was not a 304 and
+    /// whether that exchange was free of injected faults.
+    last_ok_view: Option<(RrdpSrv, bool)>,
+    next_hist_id: u64,
     pub kill: Option<Arc<KillCtl>>,
     stats: Stats,
     log: Vec<String>,
@@ -202,7 +206,8 @@ impl SimB {
             seed, rng, scratch: scratch.into(), config,
             ca: make_ca(&notify_uri()),
             srv, srv_history: Vec::new(), http, last_ok: None,
-            last_ok_objects: BTreeMap::new(), kill,
+            last_ok_objects: BTreeMap::new(), last_ok_view: None,
+            next_hist_id: 0, kill,
             stats: Stats::default(), log: Vec::new(), ops: Vec::new(),
             violations: Vec::new(), property, next_content: 0,
             crashed: false,
@@ -211,8 +216,35 @@ impl SimB {
         for _ in 0..3 {
             sim.mutate_server();
         }
-        sim.srv_history.push(sim.srv.clone());
+        sim.push_history();
         sim
+    }
+
+    /// Records the current server state as the next entry of the history,
+    /// derived from the entry the state was taken from.
+    fn push_history(&mut self) {
+        self.next_hist_id += 1;
+        self.srv.hist_parent = Some(self.srv.hist_id);
+        self.srv.hist_id = self.next_hist_id;
+        self.srv_history.push(self.srv.clone());
+    }
+
+    /// The content the lineage of `view` had at the given version.
+    fn ancestor_content(
+        &self, view: &RrdpSrv, session: &str, serial: u64
+    ) -> Option<&BTreeMap<String, Bytes>> {
+        let mut cur = self.srv_history.iter().find(|h| h.hist_id == view.hist_id);
+        while let Some(state) = cur {
+            if state.session != session || state.serial < serial {
+                return None
+            }
+            if state.serial == serial {
+                return Some(&state.objects)
+            }
+            let parent = state.hist_parent?;
+            cur = self.srv_history.iter().find(|h| h.hist_id == parent);
+        }
+        None
     }
 
     fn violation(&mut self, class: &str, step: usize, msg: String) {
@@ -277,7 +309,7 @@ impl SimB {
             }
             "prune-deltas".into()
         }
-        else if roll < 90 {
+        else if roll < 90 && self.property == "C25" {
             // The server rewrites its recent history under the same
             // session (restore from backup): go back one or two serials
             // and publish different changes under the same serials.
@@ -300,7 +332,7 @@ impl SimB {
         else {
             "idle".into()
         };
-        self.srv_history.push(self.srv.clone());
+        self.push_history();
         self.ops.push(json!({"step": step, "op": "server", "what": what,
             "serial": self.srv.serial}));
         self.stats.fault(&format!("srv-{}", what.split(' ').next().unwrap()));
@@ -682,6 +714,15 @@ impl SimB {
                          this exchange", &session[..8], serial
                     ));
                 }
+                else if !truths.iter().any(|truth| *truth == objects)
+                    && self.rewrite_excuses(&state, &log, got_304)
+                {
+                    // The server changed, under the same session and serial,
+                    // the version the client holds, and nothing the client
+                    // was shown reveals it: the deltas cannot lead to the
+                    // snapshot and no client could notice.
+                    self.stats.probe("undetectable-history-rewrite");
+                }
                 else if !truths.iter().any(|truth| *truth == objects) {
                     let truth = &truths[0];
                     let missing: Vec<&String> = truth.keys().filter(
@@ -702,6 +743,11 @@ impl SimB {
                 }
                 self.last_ok_objects = objects.clone();
                 self.last_ok = Some((session.clone(), serial));
+                if !got_304 {
+                    self.last_ok_view = Some((
+                        state.clone(), matches!(fault, Fault::None)
+                    ));
+                }
                 self.log.push(format!(
                     "step {step}: view {}#{} fault {fault:?} -> updated to \
                      {}#{} ({} objects{})",
@@ -711,6 +757,50 @@ impl SimB {
                 Some(true)
             }
         }
+    }
+
+    /// Is a copy that differs from the announced snapshot the unavoidable
+    /// result of a rewritten server history?
+    ///
+    /// Only if the update was done by deltas alone, the version the client
+    /// started from is not what this view's lineage had at that version, and
+    /// no delta that the client has seen listed before is listed now with
+    /// different content (that, the client must notice).
+    fn rewrite_excuses(
+        &self, state: &RrdpSrv, log: &[crate::servers::HttpLogEntry],
+        got_304: bool,
+    ) -> bool {
+        if got_304 || self.crashed {
+            return false
+        }
+        let by_deltas = log.iter().any(|e| e.uri.ends_with("delta.xml"))
+            && !log.iter().any(|e| {
+                e.uri.ends_with("snapshot.xml") && e.status == 200
+            });
+        if !by_deltas {
+            return false
+        }
+        let Some((session, serial)) = self.last_ok.clone() else {
+            return false
+        };
+        let on_lineage = self.ancestor_content(state, &session, serial)
+            .map(|objects| *objects == self.last_ok_objects)
+            .unwrap_or(false);
+        if on_lineage {
+            return false
+        }
+        let obliged = match self.last_ok_view.as_ref() {
+            Some((prev, true)) => prev.deltas.iter().any(|(s, changes)| {
+                state.deltas.iter().any(|(s2, changes2)| {
+                    s2 == s && changes2 != changes
+                })
+            }),
+            // The client's memory of listed deltas is unknown: be strict
+            // only if nothing could have been remembered wrongly.
+            Some((_, false)) => false,
+            None => false,
+        };
+        !obliged
     }
 
     fn pick_view_and_fault(&mut self, orng: &mut Rng) -> (usize, Fault) {
@@ -799,7 +889,7 @@ impl SimB {
         if self.rng.chance(60, 100) {
             // Make sure there is something to do.
             self.mutate_server();
-            self.srv_history.push(self.srv.clone());
+            self.push_history();
         }
         let view = self.srv_history.len() - 1;
         let fault = if self.rng.chance(25, 100) {
